@@ -37,7 +37,7 @@ type C18Case struct {
 	Input string   `json:"api_input,omitempty"`
 }
 
-var c18States = []string{"baseline", "rewrite", "corrupt", "delete", "directories", "dangling", "extra-files", "eacces"}
+var c18States = []string{"baseline", "rewrite", "corrupt", "delete", "directories", "dangling", "extra-files", "eacces", "empty", "blank"}
 
 const (
 	c18Root    = "W/root"
@@ -337,6 +337,14 @@ func materialiseC18(c *C18Case, root, state string) error {
 			}
 		case "corrupt":
 			if err := os.WriteFile(full, []byte("{{{ \x00 not: [valid"), 0o644); err != nil {
+				return err
+			}
+		case "empty":
+			if err := os.WriteFile(full, nil, 0o644); err != nil {
+				return err
+			}
+		case "blank":
+			if err := os.WriteFile(full, []byte("\n\n"), 0o644); err != nil {
 				return err
 			}
 		case "delete":
@@ -677,7 +685,7 @@ func RunC18(e *Env) (int, error) {
 		}
 	}
 	viol, err := e.Drive(n, fn, finish)
-	ev.Coverage["rule"] = "each run builds W/root (inputs, layers, sub-directory) and W/outside (decoy layers with recognisable content), plants one attack vector inside the root ($parent with .., absolute, wildcard, list; relative/absolute/chained file symlinks; directory symlink; symlink whose target name implies an outside parent; input spelled through ..; virtual extension; sub-directory root) or its benign twin, picks a root spelling (relative, absolute, ., .., /, sub-directory), and runs the stock bkl -r under strace once per outside state of a seeded schedule (baseline, decoys rewritten / corrupted / deleted / replaced by directories / by dangling links / extra files added / openat EACCES injected); oracle = identical (status, stdout) across states + no successful open of a regular file outside the root + attack runs fail with empty stdout + benign twins equal the run without -r; non-trivial = an attack vector was present and the process probed a path outside the root; distinct = canonical case"
+	ev.Coverage["rule"] = "each run builds W/root (inputs, layers, sub-directory) and W/outside (decoy layers with recognisable content), plants one attack vector inside the root ($parent with .., absolute, wildcard, list; relative/absolute/chained file symlinks; directory symlink; symlink whose target name implies an outside parent; input spelled through ..; virtual extension; sub-directory root) or its benign twin, picks a root spelling (relative, absolute, ., .., /, sub-directory), and runs the stock bkl -r under strace once per outside state of a seeded schedule (baseline, decoys rewritten / corrupted / emptied / blanked / deleted / replaced by directories / by dangling links / extra files added / openat EACCES injected); oracle = identical (status, stdout) across states + no successful open of a regular file outside the root + attack runs fail with empty stdout + benign twins equal the run without -r; non-trivial = an attack vector was present and the process probed a path outside the root; distinct = canonical case"
 	ev.Coverage["loop_seconds"] = time.Since(t0).Seconds()
 	ev.Assumptions = []string{
 		"opening outside directories (filepath.Glob, os.Root component walks) and stat/readlink probes are not content reads and are not flagged",
